@@ -1239,6 +1239,52 @@ class Model:
             raise AnchorError("anchor function vanished: %s::%s" % (relpath, qualname))
         return m.functions[qualname]
 
+    def flat_func(self, relpath: str, qualname: str) -> FuncInfo:
+        """A method with every call of a private method of its own class (`self.__helper(..)`, `self._helper(..)`) inlined - on the
+        analysed copy only - whether or not the helper exists in the reference tree.  Rules that reason about *what a method does on a
+        path* use this view, so that moving statements between a method and its private helpers (in either direction) does not change
+        what they see.  Helpers that cannot be inlined value-preservingly stay calls."""
+        fi = self.func(relpath, qualname)
+        key = (relpath, qualname)
+        cache = self.__dict__.setdefault("_flat_cache", {})
+        if key in cache:
+            return cache[key]
+        if fi.cls is None:
+            cache[key] = fi
+            return fi
+        import copy as _copy
+        from . import inline
+        cnode = _copy.deepcopy(fi.cls.node)
+        for n in ast.walk(cnode):
+            for a_ in ("_parent", "_funcinfo"):
+                if hasattr(n, a_):
+                    try:
+                        delattr(n, a_)
+                    except AttributeError:
+                        pass
+        tree = ast.Module(body=[cnode], type_ignores=[])
+        private = {m_.name for m_ in cnode.body if isinstance(m_, (ast.FunctionDef, ast.AsyncFunctionDef)) and m_.name.startswith("_")
+                   and not (m_.name.startswith("__") and m_.name.endswith("__")) and m_.name != fi.name
+                   and not any(ast.unparse(d).split(".")[-1] in ("property", "abstractmethod", "contextmanager", "setter") for d in m_.decorator_list)}
+        # `known` = everything that must NOT be inlined
+        known = {"%s.%s" % (cnode.name, m_.name) for m_ in cnode.body if isinstance(m_, (ast.FunctionDef, ast.AsyncFunctionDef)) and m_.name not in private}
+        inl = inline.Inliner(tree, known)
+        inl.run()
+        ast.fix_missing_locations(tree)
+        tree = normal_form(tree)
+        target = next((m_ for m_ in tree.body[0].body if isinstance(m_, (ast.FunctionDef, ast.AsyncFunctionDef)) and m_.name == fi.name), None)
+        if target is None:
+            cache[key] = fi
+            return fi
+        for n in ast.walk(target):
+            for ch in ast.iter_child_nodes(n):
+                ch._parent = n
+        target._parent = None
+        out = FuncInfo(target, fi.qualname, fi.module, cls=fi.cls, parent=None)
+        out.flattened = sorted({h for _c, h in inl.inlined})
+        cache[key] = out
+        return out
+
     def cls(self, relpath: str, qualname: str) -> ClassInfo:
         m = self.module(relpath)
         if qualname not in m.classes:
